@@ -16,11 +16,12 @@ func init() {
 	register(&Check{
 		ID:  "C23",
 		Run: runC23,
-		Explanation: "Decides that every serialisation point of the PDF writer is preceded by the matching encryption step whenever an encryption key is set: (R1) every call of writeObject(ctx, n, g, s) in pkg/pdfcpu is classified by what s is serialised from — a Dict/Array (PDFString, sigDictPDFString): on every path from the function entry the call is preceded by the success edge of encryptDeepObject applied to that same value, or by the nil edge of ctx.EncKey; a StringLiteral/HexLiteral: s must be the PDFString of the result of encryptStringLiteral/encryptHexLiteral on the EncKey!=nil path; a Name/Boolean/Integer/Float/constant: exempt (no string content); the encryption dictionary writer: exempt by table; anything else (raw bytes of an undecoded object) is reported; (R1b) in writeStreamDictObject every path to writeStreamObject passes the success edge of encryptStream whose result is stored into sd.Raw (followed by the Length update), or one of exactly three skip edges: EncKey == nil, /Type /XRef, single Crypt filter; every caller of writeStreamDictObject is either writeDeepStreamDict (which must first pass encryptDeepObject on the stream dictionary value), or in the exempt table (xref stream — no strings by construction; object-stream container — its content is the diverted objects and is encrypted as a stream); (R2 TABLE) encryptDeepObject's type switch handles exactly the string-bearing kinds {StreamDict, Dict, Array, StringLiteral, HexLiteral}, every call site passes a value whose static type is one of the handled case types (a *StreamDict, which silently falls into the empty default, is rejected), the only non-encrypting exits are the IndirectRef early return and the default clause; encryptDict skips only /Contents of signature dictionaries. (R4 once) the writers that encrypt their object in place (writeDictObject, writeArrayObject, writeStreamDictObject, writeObjectGeneric) are reached only for an object number without a write offset (HasWriteOffset false edge, or a successful PageTreeVisit.Enter for the node entered in that function), directly or — computed as a greatest fixpoint over the call graph — because every caller of the enclosing function is; writers of objects created for this write are listed by table: an object written twice is encrypted twice, which under RC4 restores the plaintext in the copy the xref table points to. NOT decided: cipher strength/correctness (C22/C24), that a run of ciphertext bytes cannot coincide with a plaintext string.",
+		Explanation: "Decides that every serialisation point of the PDF writer is preceded by the matching encryption step whenever an encryption key is set: (R1) every call of writeObject(ctx, n, g, s) in pkg/pdfcpu is classified by what s is serialised from — a Dict/Array (PDFString, sigDictPDFString): on every path from the function entry the call is preceded by the success edge of encryptDeepObject applied to that same value, or by the nil edge of ctx.EncKey; a StringLiteral/HexLiteral: s must be the PDFString of the result of encryptStringLiteral/encryptHexLiteral on the EncKey!=nil path; a Name/Boolean/Integer/Float/constant: exempt (no string content); the encryption dictionary writer: exempt by table; anything else (raw bytes of an undecoded object) is reported; (R1b) in writeStreamDictObject every path to writeStreamObject passes the success edge of encryptStream whose result is stored into sd.Raw (followed by the Length update), or one of exactly three skip edges: EncKey == nil, /Type /XRef, single Crypt filter; every caller of writeStreamDictObject is either writeDeepStreamDict (which must first pass encryptDeepObject on the stream dictionary value), or in the exempt table (xref stream — no strings by construction; object-stream container — its content is the diverted objects and is encrypted as a stream); (R2 TABLE) encryptDeepObject's type switch handles exactly the string-bearing kinds {StreamDict, Dict, Array, StringLiteral, HexLiteral}, every call site passes a value whose static type is one of the handled case types (a *StreamDict, which silently falls into the empty default, is rejected), the only non-encrypting exits are the IndirectRef early return and the default clause; encryptDict skips only /Contents of signature dictionaries. (R4 once) the writers that encrypt their object in place (writeDictObject, writeArrayObject, writeStreamDictObject, writeObjectGeneric) are reached only for an object number without a write offset (HasWriteOffset false edge, or a successful PageTreeVisit.Enter for the node entered in that function), directly or — computed as a greatest fixpoint over the call graph — because every caller of the enclosing function is; writers of objects created for this write are listed by table: an object written twice is encrypted twice, which under RC4 restores the plaintext in the copy the xref table points to. (R5) the object writers discard encryptDeepObject's result and serialise the container they passed in, so every store of a recursive call's result inside encryptDeepObject must go into the container that was handed in, not into a copy. NOT decided: cipher strength/correctness (C22/C24), that a run of ciphertext bytes cannot coincide with a plaintext string.",
 		Rules: []string{
 			"C23.R1 MPT: encrypt before serialise at every writeObject / writeStreamObject site",
 			"C23.R2 TABLE: encryptDeepObject covers all string-bearing kinds; call-site argument types are handled kinds",
 			"C23.R3 exempt writers table",
+			"C23.R5 contract: encryptDeepObject stores encrypted elements into the container it was handed (callers discard its result)",
 			"C23.R4 once: in-place encrypting writers are reached only for objects without a write offset (an object encrypted twice with RC4 is plaintext again)",
 		},
 		Assumptions: []string{"objects diverted into object streams are protected by the container's stream encryption"},
@@ -167,6 +168,8 @@ func sameObjectValue(a, b ssa.Value) bool {
 
 func runC23(c *Ctx) {
 	p, r := c.P, c.R
+	r.MinInst["C23.R5"] = 1
+	checkInPlaceContract(c)
 	r.MinInst["C23.R1"] = 12
 	r.MinInst["C23.R2"] = 6
 	runC23R4(c)
@@ -752,6 +755,118 @@ func init() {
 				g, u := onceGuardedCalls(c, false, func(_ string, callee *ssa.Function) bool { return callee != nil && unwrapSynthetic(callee) == f })
 				fmt.Printf("   %s guarded=%d unguarded=%d\n", FuncID(c), len(g), len(u))
 			}
+		}
+	}
+}
+
+// ---------------- C23.R5 (round 3 of seeding): the in-place contract of encryptDeepObject ----------------
+
+// checkInPlaceContract: the object writers call encryptDeepObject on a dictionary, array or stream dictionary and
+// DISCARD its result: they serialise the value they passed in. That is only correct while the container cases of
+// encryptDeepObject (and encryptDict) store every encrypted element back into the container they were handed.
+// For each container kind that some caller passes while discarding the result, every store of a recursive
+// call's result must go into the input container (not into a copy).
+func checkInPlaceContract(c *Ctx) {
+	p, r := c.P, c.R
+	enc := p.Func("pkg/pdfcpu.encryptDeepObject")
+	if enc == nil {
+		r.Bad("C23.R5", "pkg/pdfcpu.encryptDeepObject", "anchor", "", "UNRESOLVED-ANCHOR")
+		return
+	}
+	// callers that discard the result, by kind of the argument
+	discarded := map[string]string{}
+	for _, fn := range p.Funcs {
+		if !isSubject(fn) {
+			continue
+		}
+		fn := fn
+		eachInstr(fn, func(_ *ssa.BasicBlock, _ int, i ssa.Instruction) {
+			call, ok := i.(*ssa.Call)
+			if !ok {
+				return
+			}
+			if callee := staticCallee(call); callee == nil || unwrapSynthetic(callee) != enc {
+				return
+			}
+			used := false
+			for _, rf := range *call.Referrers() {
+				if ex, ok := rf.(*ssa.Extract); ok && ex.Index == 0 && ex.Referrers() != nil && len(*ex.Referrers()) > 0 {
+					used = true
+				}
+			}
+			if used {
+				return
+			}
+			kind := "dynamic"
+			if mi, ok := call.Call.Args[0].(*ssa.MakeInterface); ok {
+				kind = typeNameOf(mi.X.Type())
+			}
+			discarded[kind] = FuncID(fn) + " (" + p.Pos(call.Pos()) + ")"
+		})
+	}
+	if len(discarded) == 0 {
+		r.OK("C23.R5", FuncID(enc), "in-place contract", p.Pos(enc.Pos()), "no caller discards the result", false)
+		return
+	}
+	// stores of recursive results inside the Array case
+	inputRooted := func(v ssa.Value) bool {
+		for _, l := range valueLeaves(v) {
+			ex, ok := l.(*ssa.Extract)
+			if !ok {
+				if ta, ok := l.(*ssa.TypeAssert); ok && ta.X == ssa.Value(enc.Params[0]) {
+					continue
+				}
+				return false
+			}
+			ta, ok := ex.Tuple.(*ssa.TypeAssert)
+			if !ok || ta.X != ssa.Value(enc.Params[0]) {
+				return false
+			}
+		}
+		return true
+	}
+	n := 0
+	eachInstr(enc, func(_ *ssa.BasicBlock, _ int, i ssa.Instruction) {
+		call, ok := i.(*ssa.Call)
+		if !ok {
+			return
+		}
+		if callee := staticCallee(call); callee == nil || unwrapSynthetic(callee) != enc {
+			return
+		}
+		for _, rf := range *call.Referrers() {
+			ex, ok := rf.(*ssa.Extract)
+			if !ok || ex.Index != 0 || ex.Referrers() == nil {
+				continue
+			}
+			for _, use := range *ex.Referrers() {
+				st, ok := use.(*ssa.Store)
+				if !ok || st.Val != ssa.Value(ex) {
+					continue
+				}
+				ia, ok := st.Addr.(*ssa.IndexAddr)
+				if !ok {
+					continue
+				}
+				n++
+				construct := fmt.Sprintf("element store#%d", n)
+				if inputRooted(ia.X) {
+					r.OK("C23.R5", FuncID(enc), construct, p.Pos(st.Pos()), "the encrypted element is stored into the array that was passed in (callers that discard the result serialise that array)", true)
+				} else {
+					who := discarded["Array"]
+					if who == "" {
+						for _, w := range discarded {
+							who = w
+						}
+					}
+					r.Bad("C23.R5", FuncID(enc), construct, p.Pos(st.Pos()), "the encrypted element is stored into a copy, but "+who+" discards encryptDeepObject's result and serialises the array it passed in: the strings of an array that is an indirect object of its own are written as plaintext")
+				}
+			}
+		}
+	})
+	if n == 0 {
+		if _, arr := discarded["Array"]; arr {
+			r.Bad("C23.R5", FuncID(enc), "element store", p.Pos(enc.Pos()), "a caller ("+discarded["Array"]+") passes an array and discards the result, but encryptDeepObject stores no encrypted element back into a container: the strings are never replaced")
 		}
 	}
 }
